@@ -336,6 +336,8 @@ pub struct GenCfg {
     pub lru_makers: bool,
     /// durability-profiled histories (common high durability first, value-preserving durability changes)
     pub dur_profile: bool,
+    /// value-neutral accumulation guarded by inputs
+    pub neutral_acc: bool,
 }
 
 #[derive(Clone, Debug)]
@@ -374,6 +376,7 @@ impl GenCfg {
             entries_reqs: false,
             lru_makers: false,
             dur_profile: false,
+            neutral_acc: false,
         }
     }
 }
@@ -456,7 +459,28 @@ impl G<'_> {
                 Expr::OnSym(Box::new(self.expr(me, depth - 1, ctx)))
             }
             75..=84 if self.cfg.accumulate && !ctx.noacc => {
-                Expr::Acc(Box::new(self.expr(me, depth - 1, ctx)))
+                if self.cfg.neutral_acc && self.rng.chance(1, 2) {
+                    // value-neutral push guarded by an input: the function backdates while what
+                    // it accumulates changes
+                    let c = Expr::In(self.rng.below(self.ncells), self.rng.below(2));
+                    let v = self.val();
+                    let k = self.val();
+                    Expr::If(
+                        Box::new(c),
+                        Box::new(Expr::Bin(
+                            Op::Max,
+                            Box::new(Expr::Bin(
+                                Op::Min,
+                                Box::new(Expr::Acc(Box::new(Expr::Const(v)))),
+                                Box::new(Expr::Const(0)),
+                            )),
+                            Box::new(Expr::Const(k)),
+                        )),
+                        Box::new(Expr::Const(k)),
+                    )
+                } else {
+                    Expr::Acc(Box::new(self.expr(me, depth - 1, ctx)))
+                }
             }
             _ => self.leaf(ctx),
         }
